@@ -780,7 +780,10 @@ def _judge_class(run, rec, o):
 def _binary(run, tier, rng, tf, Q, K, draws, call):
   lines, recs = [], []
   n = 12
-  col_max = [Fraction(1, 4), Fraction(1, 64), Fraction(1), Fraction(3), Fraction(1, 2)]
+  # the last channel is ALL ZERO: f = 2*min(max|x|, 1) = 0 there; x/f used to be 0/0 = NaN in training
+  # (value and gradient) until the repair of binary.__call__ (`f = tf.where(f > 0, f, 1)`); the model's
+  # rational 0/0 = 0 is what the repaired code computes (x = 0, so x/f = 0 for every positive f)
+  col_max = [Fraction(1, 4), Fraction(1, 64), Fraction(1), Fraction(3), Fraction(1, 2), Fraction(0)]
   cols = []
   for m in col_max:
     mc = min(m, Fraction(1))
@@ -794,7 +797,7 @@ def _binary(run, tier, rng, tf, Q, K, draws, call):
   fr1 = []
   for x, m in zip(xs, ms):
     f = 2 * min(m, Fraction(1))
-    t = x / f * 8
+    t = x / f * 8 if f != 0 else Fraction(0)
     fr1.append(t - math.floor(t))
   xs32 = f32list(xs)
   for use01 in (False, True):
@@ -824,6 +827,13 @@ def _binary(run, tier, rng, tf, Q, K, draws, call):
       continue
     if rec["left"]:
       run.disagree("binary", dict(ident, what="draw count"), rec["left"], 0)
+    if not np.all(np.isfinite(y)):
+      i = int(np.nonzero(~np.isfinite(y))[0][0])
+      run.disagree("binary", dict(ident, x=str(xs[i]), m=str(ms[i])), str(y[i]), "a code")
+      run.violate("adjacent", {"class": "binary", "kind": "not-finite"},
+                  dict(ident, x=str(xs[i]), channel_max=str(ms[i]), output=str(y[i]),
+                       n_bad=int(np.sum(~np.isfinite(y)))), mirrored=False)
+      continue
     impl, model = fr_list(y), dec(o["y"])
     run.compared += len(impl)
     agree = [a == b for a, b in zip(impl, model)]
@@ -838,7 +848,7 @@ def _binary(run, tier, rng, tf, Q, K, draws, call):
       if yi not in codes:
         run.violate("adjacent", {"class": "binary", "kind": "not-a-code"},
                     dict(ident, x=str(xs[i]), output=str(yi)), mirrored=agree[i])
-      elif rec["stream"] == "train" and abs(xs[i]) >= 2 * min(ms[i], 1) / 8:
+      elif rec["stream"] == "train" and xs[i] != 0 and abs(xs[i]) >= 2 * min(ms[i], 1) / 8:
         want = (Fraction(1) if xs[i] > 0 else (Fraction(0) if rec["use01"] else Fraction(-1)))
         if yi != want:    # |x/f| >= 1/8 keeps its sign for every draw (codes are fixed)
           run.violate("code_fixed", {"class": "binary", "kind": "sign-lost"},
